@@ -761,6 +761,37 @@ func runC06(c *Ctx) {
 			bTdxNil
 		)
 		svnStore := func(in ssa.Instruction) int {
+			// the field's address handed to a helper that stores through it (bundled.assign(&ec.SevSnp.Svn))
+			if call, isCall := in.(*ssa.Call); isCall {
+				g := call.Call.StaticCallee()
+				if g == nil || !load.FuncInRepo(g) || g.Blocks == nil || len(g.Params) != len(call.Call.Args) {
+					return -1
+				}
+				for i, a := range call.Call.Args {
+					fa, ok := a.(*ssa.FieldAddr)
+					if !ok {
+						continue
+					}
+					k := -1
+					switch {
+					case flow.IsFieldLoad(fa, sevPkgP, "SnpEndorsementRequest", "Svn"):
+						k = 0
+					case flow.IsFieldLoad(fa, tdxPkgP, "EndorsementRequest", "Svn"):
+						k = 1
+					}
+					if k < 0 {
+						continue
+					}
+					for _, gb := range g.Blocks {
+						for _, gi := range gb.Instrs {
+							if st, ok := gi.(*ssa.Store); ok && st.Addr == ssa.Value(g.Params[i]) {
+								return k
+							}
+						}
+					}
+				}
+				return -1
+			}
 			st, ok := in.(*ssa.Store)
 			if !ok {
 				return -1
